@@ -240,6 +240,7 @@ class DtcDop(DopBase):
     def _resolve_odxlinks(self, odxlinks: OdxLinkDatabase) -> None:
         super()._resolve_odxlinks(odxlinks)
 
+        self.diag_coded_type._resolve_odxlinks(odxlinks)
         self.compu_method._resolve_odxlinks(odxlinks)
 
         self._dtcs = NamedItemList[DiagnosticTroubleCode]()
